@@ -508,6 +508,12 @@ func restart(cfg fw.Config, rec *fw.Rec, i int) {
 	for k := 0; k < n; k++ {
 		m.make(ids[k], time.Duration(120+r.Intn(80))*time.Millisecond, "before_restart")
 	}
+	// in a quarter of the scenarios the host stays down long enough for the short timers to
+	// be overdue when it comes back, while a long one (3 s) is not due yet
+	overdue := i%4 == 3
+	if overdue {
+		m.make("z", 3*time.Second, "before_restart")
+	}
 	// one short timer fires before the restart
 	m.make("early", 3*time.Millisecond, "before_restart")
 	m.pump(10*time.Second, func() bool {
@@ -550,6 +556,10 @@ func restart(cfg fw.Config, rec *fw.Rec, i int) {
 	persisted := map[string]string{}
 	for id, uid := range oldPending {
 		persisted[id] = uid
+	}
+	if overdue {
+		time.Sleep(260 * time.Millisecond)
+		rec.Bucket("restart_with_overdue_timers")
 	}
 	// a third of the scenarios restart twice in a row, the second time from what the first
 	// restarted crew reported
@@ -650,6 +660,14 @@ func restart(cfg fw.Config, rec *fw.Rec, i int) {
 	}
 	for id, uid := range persisted {
 		rr := oldRecs[uid]
+		if rr.delay >= time.Second {
+			// not due within this scenario: it must not have fired (never early)
+			if rr.fired != 0 {
+				m2.violation("fired-early", fmt.Sprintf("timer %s (%s, due after %v) fired during the scenario", id, uid, rr.delay))
+				return
+			}
+			continue
+		}
 		if rr.fired != 1 {
 			m2.violation("restored-timer-not-fired-once", fmt.Sprintf("timer %s (%s) persisted before the restart fired %d times after it", id, uid, rr.fired))
 			return
@@ -665,8 +683,8 @@ func restart(cfg fw.Config, rec *fw.Rec, i int) {
 
 func Run(cfg fw.Config, rec *fw.Rec) {
 	log.SetOutput(io.Discard)
-	rec.Rule = "sio timers through a real Crew whose input channel the harness owns (the harness plays the crew loop; results are serialised by a consumer goroutine as Stdio does): scenarios of 4-18 steps over ids {x,y}: make (2-16 ms, or 10 s), cancel, receive for a while, stop receiving so that due timers block inside the emitter and then cancel / re-create the blocked id, quiesce; per timer: fired at most once, not before clock-before-request + delay, not after an acknowledged cancel that preceded its due time; at quiescent points the reported timers state (after a flush message) and the live machine state must equal accepted - fired - cancelled ('accepted' = reported pending right after the request); restart: timers persisted as JSON resume on a new crew (in a third of the scenarios the new crew is restarted again from what it reported), the pending set held and reported right after each restart equals the persisted one, the timers fire exactly once on the last crew and never on an earlier one; under -race; non-trivial = scenario in which a timer fired; distinct by scenario"
-	rec.Required = []string{"fired", "accepted", "cancelled", "quiescent_points_compared", "phases_with_blocked_firing", "make_while_a_firing_is_blocked", "restart_scenarios", "timers_resumed_after_restart", "resumed_timer_cancelled_after_restart", "pending_set_compared_right_after_restart", "second_restart_from_state_reported_after_first"}
+	rec.Rule = "sio timers through a real Crew whose input channel the harness owns (the harness plays the crew loop; results are serialised by a consumer goroutine as Stdio does): scenarios of 4-18 steps over ids {x,y}: make (2-16 ms, or 10 s), cancel, receive for a while, stop receiving so that due timers block inside the emitter and then cancel / re-create the blocked id, quiesce; per timer: fired at most once, not before clock-before-request + delay, not after an acknowledged cancel that preceded its due time; at quiescent points the reported timers state (after a flush message) and the live machine state must equal accepted - fired - cancelled ('accepted' = reported pending right after the request); restart: timers persisted as JSON resume on a new crew (in a third of the scenarios the new crew is restarted again from what it reported), in a quarter the host stays down until the short timers are overdue while a 3 s timer is not yet due; the pending set held and reported right after each restart equals the persisted one, the timers fire exactly once on the last crew and never on an earlier one; under -race; non-trivial = scenario in which a timer fired; distinct by scenario"
+	rec.Required = []string{"fired", "accepted", "cancelled", "quiescent_points_compared", "phases_with_blocked_firing", "make_while_a_firing_is_blocked", "restart_scenarios", "timers_resumed_after_restart", "resumed_timer_cancelled_after_restart", "pending_set_compared_right_after_restart", "second_restart_from_state_reported_after_first", "restart_with_overdue_timers"}
 	rec.Assume = []string{"a cancel acknowledged after the timer's due time overlaps its firing (the goroutine may already be blocked in the emitter): either outcome accepted", "requests the timers machine does not accept (duplicate pending id; requests after a failed cancel) are counted, not judged", "bounded progress: 30 s"}
 	n := cfg.Pick(150, 5000)
 	fw.Parallel(6, n, func(w, i int) { scenario(cfg, rec, i) })
